@@ -13,6 +13,10 @@ CLAIMED = {
             "Static, schedule-independent: a stream id is freed and leaves the orphanage only in ResponseHandlerMap::lookup (the response path); the id registered for a request is the one StreamIdSet::allocate returned; lookup tests the orphanage before touching handlers and forgets the request->stream mapping on delivery; orphan() is complete; the reader delivers the TaskResponse built from the frame it just read to the handler lookup returned and dies on an unsolicited id; no handler-map guard lives across an await; the orphan notifier is disabled only after the response is Ready. Interleavings as such and the bitmap arithmetic are not decided.",
             "Trusts rustc MIR and the role-based anchors (three private types of connection.rs); renaming them trips the fail-closed anchor check by design.",
             "DESIGN.md §3 C02"),
+    "C03": ("call-sequence extraction per loop with argument provenance (two sibling encoders), cast-chain check on the tail loops, evaluated-constant census, dataflow region in Token::new, def-use provenance of key order",
+            "Static, thin but pointed: both composite-key encoders feed (checked big-endian u16 length, bytes, one zero byte) per component in that order and the value only for single keys; every tail byte of the Murmur3 finaliser is sign-extended through i8; the six incompressible constants and the rotation counts equal MurmurHash3_x64_128; Token::new maps i64::MIN to i64::MAX and finish() returns through it; key components are placed by partition-key position and fetched by bind-marker index. That the arithmetic equals the server's for all inputs and chunkings is numerical and not decided.",
+            "Trusts rustc MIR; reference constants transcribed by hand.",
+            "DESIGN.md §3 C03"),
     "C06": ("MIR abstract-state dataflow over the retry decision tables + CFG cut rules on the retry loop",
             "Static, all-paths: the full decision table of every workspace impl RetrySession is extracted from type-checked MIR and every Retry* site is shown to lie where is_idempotent is true or the error class is within the SAFE set; the interpreting loop is shown (reachability after cuts) to re-send only through a Retry* decision. Decides the structural clauses, not end-to-end frame counts.",
             "Trusts rustc MIR construction; SAFE set transcribed from the property text; user-supplied policies out of scope.",
